@@ -3,7 +3,7 @@
 P=$1; PATCH=$(readlink -f "$2"); TIER=${3:-quick}
 D=$(mktemp -d /var/tmp/repo-seed.XXXXXX)
 cp -a /repo/. "$D/" && git -C "$D" apply "$PATCH" || { echo "patch does not apply"; rm -rf "$D"; exit 3; }
-cd /verif && VERIF_REPO="$D" ./check "$P" --tier "$TIER" 2>&1 | grep -v "^\[" | tail -8
+cd /verif && VERIF_REPO="$D" ./check "$P" --tier "$TIER" 2>&1 | grep "VIOLATION\|^OK\|KNOWN-FINDING" | tail -12
 rc=${PIPESTATUS[0]}
 rm -rf "$D"
 exit $rc
